@@ -188,7 +188,16 @@ func Draw(rt *rapid.T, opt Options) *World {
 		alloc[progAddrs[i]] = acc
 	}
 	for j := range w.Scenarios {
-		alloc[scAddrs[j]] = types.Account{Nonce: 1, Code: w.ScenarioCode[j], Balance: contractBal("scenario-balance")}
+		acc := types.Account{Nonce: 1, Code: w.ScenarioCode[j], Balance: contractBal("scenario-balance")}
+		if !opt.NoStorage {
+			acc.Storage = map[common.Hash]common.Hash{}
+			for k := 0; k < 4; k++ { // the slots scenario SSTORE steps write
+				if pickW(rt, "scenario-slot", []int{1, 1}) == 1 {
+					acc.Storage[common.Hash{31: byte(k)}] = common.Hash{31: 1}
+				}
+			}
+		}
+		alloc[scAddrs[j]] = acc
 	}
 	if pickW(rt, "poor-key", []int{2, 1}) == 1 {
 		w.PoorKey = 1 + ep.Uniform(rt, "poor-key-idx", len(Keys)-1)
